@@ -814,8 +814,8 @@ func TestC20(t *testing.T) {
 		"values are exactly representable (multiples of 1/8, small integers) so float sums/means are order-independent; extreme values only for count and selectors")
 	r.Trust("mock SeriesCursor/CursorIterator/array cursors in c20_test.go (reused backing buffer, closed time range) stand in for tsm1 cursors in streams 1–2")
 
-	nSmall := r.N(2600, 130000)
-	nLarge := r.N(400, 20000)
+	nSmall := r.N(2600, 80000)
+	nLarge := r.N(400, 12000)
 	nStore := r.N(1500, 30000)
 
 	types := []byte{'f', 'i', 'u', 's', 'b'}
